@@ -738,3 +738,165 @@ func init() {
 			return out
 		}})
 }
+
+// SCALEU64 — the approximate scheme never squeezes a scale into 64 bits.
+//
+// A CKKS scale is a big float: in the 128-bit precision mode one rescaling consumes two primes and scales are around
+// 2^90, and ratios of scales are not integers in general. rlwe.Scale.Uint64() saturates at 2^64-1 (and truncates), so
+// `eval.Mul(ct, scale.Uint64(), ct)` multiplies by a different constant than the one the scale bookkeeping records.
+// (In BGV/BFV scales live modulo the 64-bit plaintext modulus and Uint64 is exact.)
+//
+// Rule: no function of schemes/ckks, circuits/ckks/… or multiparty/mpckks calls Uint64 on an rlwe.Scale.
+func scanScaleU64(c *core.Ctx) []ob {
+	var out []ob
+	n := 0
+	c.FuncDecls(func(pk *packages.Package, file *ast.File, fd *ast.FuncDecl) {
+		rel := core.ShortPkg(pk.PkgPath)
+		if fd.Body == nil || fileIsTestSupport(c.Program, fd.Pos()) || !(c.IsFixture || strings.HasPrefix(rel, "schemes/ckks") || strings.HasPrefix(rel, "circuits/ckks") || strings.HasPrefix(rel, "multiparty/mpckks")) {
+			return
+		}
+		if c.IsFixture && !strings.HasPrefix(fd.Name.Name, "ckks") {
+			return
+		}
+		info := pk.TypesInfo
+		fkey := core.FuncKey(pk, fd)
+		n++
+		var bad *ast.CallExpr
+		ast.Inspect(fd.Body, func(x ast.Node) bool {
+			call, ok := x.(*ast.CallExpr)
+			if !ok || bad != nil {
+				return true
+			}
+			sel, ok := unparen(call.Fun).(*ast.SelectorExpr)
+			if !ok || sel.Sel.Name != "Uint64" || len(call.Args) != 0 {
+				return true
+			}
+			if nm := namedOf(info.TypeOf(sel.X)); nm != nil && nm.Obj().Name() == "Scale" && nm.Obj().Pkg() != nil && strings.HasSuffix(nm.Obj().Pkg().Path(), "core/rlwe") {
+				bad = call
+			}
+			return true
+		})
+		if bad != nil {
+			out = append(out, withProps(violOb("SCALEU64", "SCALEU64:"+fkey, c.Rel(bad.Pos()), fmt.Sprintf("%s converts a CKKS scale to uint64 (%s): scales exceed 64 bits in the 128-bit precision mode (Uint64 saturates) and their ratios are not integers, so the constant used differs from the scale that is recorded", fkey, exprString(bad))), propsForKey(fkey)...))
+		}
+	})
+	c.Stats["scaleu64_funcs"] = n
+	out = append(out, withProps(okOb("SCALEU64", "SCALEU64:module", "", fmt.Sprintf("%d functions of the approximate scheme examined: none converts a scale to uint64", n), true), "C06", "C13", "C18"))
+	return out
+}
+
+// LAYOUTSPLIT — every consumer splits a Q||P scalar where the allocator put the boundary.
+//
+// ringqp.Ring.NewRNSScalar lays an RNS scalar out as the residues modulo the whole chain of Q followed by those modulo
+// P: the boundary is RingQ.ModuliChainLength(), whatever the current level. A consumer that splits at the current level
+// (`scalar[:r.LevelQ()+1]`) reads residues of unrelated primes for P as soon as the ring is used below its top level.
+//
+// Rule: in the methods of ringqp.Ring, every slice expression with exactly one bound over a parameter of type
+// []uint64 / ring.RNSScalar has RingQ.ModuliChainLength() of the receiver as that bound (directly or through a local
+// defined as it).
+func scanLayoutSplit(c *core.Ctx) []ob {
+	var out []ob
+	n := 0
+	c.FuncDecls(func(pk *packages.Package, file *ast.File, fd *ast.FuncDecl) {
+		if fd.Body == nil || fd.Recv == nil || !(c.IsFixture && core.RecvTypeName(fd) == "fxQP" || core.ShortPkg(pk.PkgPath) == "ring/ringqp" && core.RecvTypeName(fd) == "Ring") {
+			return
+		}
+		info := pk.TypesInfo
+		fkey := core.FuncKey(pk, fd)
+		params := map[types.Object]bool{}
+		for _, fl := range fd.Type.Params.List {
+			for _, nm := range fl.Names {
+				t := info.TypeOf(nm)
+				if sl, ok := t.Underlying().(*types.Slice); ok && isUint64(sl.Elem()) {
+					params[info.Defs[nm]] = true
+				}
+			}
+		}
+		if len(params) == 0 {
+			return
+		}
+		var bad ast.Expr
+		sites := 0
+		ast.Inspect(fd.Body, func(x ast.Node) bool {
+			se, ok := x.(*ast.SliceExpr)
+			if !ok || !params[identObj(info, se.X)] {
+				return true
+			}
+			var bound ast.Expr
+			switch {
+			case se.Low != nil && se.High == nil:
+				bound = se.Low
+			case se.Low == nil && se.High != nil:
+				bound = se.High
+			default:
+				return true
+			}
+			sites++
+			txt := exprString(bound)
+			if o := identObj(info, bound); o != nil {
+				if d := singleDef(info, fd, o); d != nil {
+					txt = exprString(d)
+				} else {
+					// a local assigned under a nil test of RingQ: every assignment must be the chain length
+					all := true
+					ast.Inspect(fd.Body, func(y ast.Node) bool {
+						if as, ok := y.(*ast.AssignStmt); ok && len(as.Lhs) == len(as.Rhs) {
+							for i, l := range as.Lhs {
+								if identObj(info, l) == o && !strings.HasSuffix(exprString(as.Rhs[i]), "RingQ.ModuliChainLength()") {
+									all = false
+								}
+							}
+						}
+						return true
+					})
+					if all {
+						txt = "r.RingQ.ModuliChainLength()"
+					}
+				}
+			}
+			if !strings.HasSuffix(txt, "RingQ.ModuliChainLength()") && bad == nil {
+				bad = bound
+			}
+			return true
+		})
+		if sites == 0 {
+			return
+		}
+		n++
+		key := "LAYOUTSPLIT:" + fkey
+		if bad != nil {
+			out = append(out, withProps(violOb("LAYOUTSPLIT", key, c.Rel(bad.Pos()), fmt.Sprintf("%s splits a Q||P scalar at %s, but the scalar is laid out with the residues modulo P after the whole chain of Q (RingQ.ModuliChainLength(), see NewRNSScalar): below the top level the P part is read from residues of other primes", fkey, exprString(bad))), "C01", "C15"))
+		} else {
+			out = append(out, withProps(okOb("LAYOUTSPLIT", key, c.Rel(fd.Pos()), "the scalar is split at RingQ.ModuliChainLength()", true), "C01", "C15"))
+		}
+	})
+	c.Stats["layoutsplit_methods"] = n
+	return out
+}
+
+func init() {
+	core.Register(&core.Rule{Name: "SCALEU64", Wide: true, Props: []string{"C06", "C13", "C18"},
+		Doc: "no function of schemes/ckks, circuits/ckks or multiparty/mpckks calls Uint64() on an rlwe.Scale: CKKS scales exceed 64 bits (two primes per rescaling) and their ratios are not integers",
+		Run: func(c *core.Ctx) []ob {
+			out := scanScaleU64(c)
+			for _, o := range core.Floor("SCALEU64", nil, "functions of the approximate scheme", c.Stats["scaleu64_funcs"], 300) {
+				out = append(out, withProps(o, "C06"))
+			}
+			for _, o := range control(c, "SCALEU64", scanScaleU64, "lvfixture.ckksScaleBy") {
+				out = append(out, withProps(o, "C06"))
+			}
+			return out
+		}})
+	core.Register(&core.Rule{Name: "LAYOUTSPLIT", Wide: true, Props: []string{"C01", "C15"},
+		Doc: "in the methods of ringqp.Ring every one-bound slice expression over a []uint64 / RNSScalar parameter (the split of a Q||P scalar) is taken at RingQ.ModuliChainLength(), the boundary NewRNSScalar allocates, never at the current level",
+		Run: func(c *core.Ctx) []ob {
+			out := scanLayoutSplit(c)
+			for _, o := range core.Floor("LAYOUTSPLIT", nil, "methods splitting a Q||P scalar", c.Stats["layoutsplit_methods"], 4) {
+				out = append(out, withProps(o, "C01"))
+			}
+			for _, o := range control(c, "LAYOUTSPLIT", scanLayoutSplit, "(fxQP).Mul") {
+				out = append(out, withProps(o, "C01"))
+			}
+			return out
+		}})
+}
